@@ -1,22 +1,26 @@
 from cacheprops import CACHE_TB, CACHE_ASSUMPTIONS, ca_component
+from c12_surfaces_part import SURF_PROP
 
 ID = "C12"
 PROP = {
-    "modules": ["Gnmi.Props.C12"],
+    "modules": ["Gnmi.Props.C12"] + SURF_PROP["modules"],
     "theorems": ["Gnmi.C12." + t for t in [
-        "ingest_total", "ingest_keeps_invariant", "updateMetadata_total", "rejected_preserves", "unknown_target_rejected"]],
-    "components": [ca_component("c12", 2500, 30000)],
+        "ingest_total", "ingest_keeps_invariant", "updateMetadata_total", "rejected_preserves", "unknown_target_rejected"]] + SURF_PROP["theorems"],
+    "components": [ca_component("c12", 2500, 30000)] + SURF_PROP["components"],
+    "extra": SURF_PROP["extra"],
     "monitor": "spec", "level": "proof",
-    "trusted_base": CACHE_TB + ["protobuf wire decoding (the theorems are over decoded messages)"],
-    "assumptions": CACHE_ASSUMPTIONS,
+    "trusted_base": CACHE_TB + ["protobuf wire decoding (the theorems are over decoded messages)"] + SURF_PROP["trusted_base"],
+    "assumptions": CACHE_ASSUMPTIONS + SURF_PROP["assumptions"],
     "manifest": {
         "level_text": "Cache ingest surface: every partial Go operation on the ingest path is a checked model operation with an explicit panic "
                       "outcome; ingest_total proves the panic outcome unreachable for every reachable cache state and every notification "
                       "(empty/root paths, meta-addressed paths, absent values, wildcards on an empty cache, type changes), updateMetadata_total for the "
                       "periodic refresh, rejected_preserves (a rejected unit leaves the tree intact). The model is tied to the code by the ca "
-                      "correspondence driven by the malformed stream (observation `panic` on either side is a divergence).",
-        "level_note": "Trusted: Lean kernel; model validated by the ca correspondence; protobuf decoding. The Subscribe-handler, client-receive and "
-                      "CLI-display surfaces are added as their models are merged (see evidence obligation list).",
+                      "correspondence driven by the malformed stream (observation `panic` on either side is a divergence). "
+                      + SURF_PROP["level_text_part"],
+        "level_note": "Trusted: Lean kernel; model validated by the ca correspondence; protobuf decoding. Subscribe-handler, client-receive, "
+                      "CLI-display and manager surfaces: Props/C12Surfaces.lean over Model/RecvSurfaces.lean, tied by the rx correspondence "
+                      "(json/prototext/txtpbfmt/fmt trusted).",
         "technique": "Lean 4 proof of totality over a model with explicit panic outcomes + malformed-stream correspondence",
     },
 }
